@@ -38,6 +38,9 @@ func allowFromEnv() map[string]bool {
 type detCase struct {
 	Layout *fedgen.Layout `json:"layout"`
 	Ops    []opgen.Op     `json:"ops"`
+	// Reps is the number of further fresh planners compared with the first one (0: three);
+	// saved regression cases of an order that depended on map iteration use more
+	Reps int `json:"reps,omitempty"`
 }
 
 var detPart = pbt.Part[detCase]{Name: "plan-determinism", Journal: true, Quick: 1200, Thorough: 24000, Check: checkDet,
@@ -110,7 +113,7 @@ func checkDet(c detCase, o *pbt.Rec) pbt.Verdict {
 			continue
 		}
 		fp0, nfetch := fingerprint(p0)
-		for k := 0; k < 3; k++ {
+		for k := 0; k < max(c.Reps, 3); k++ {
 			for j, other := range c.Ops {
 				if j != i && k > 0 {
 					_, _ = gw.Plan(other)
